@@ -280,6 +280,31 @@ P2_REQUIRED = {
 }
 
 
+@rule("P10b", "ACCUMULATE: a pass that collects facts over the whole program extends its collection in every callback; it never rebinds the collection to what the current statement alone contributes", ["C10", "C09", "C03"], floor=3)
+def p10b(ctx: Ctx):
+    py = pyfacts(ctx)
+    n = 0
+    for cn, ci in sorted(py.mod(VISITORS_REL).classes.items()):
+        init = ci.methods.get("__init__")
+        if init is None:
+            continue
+        colls = {t.attr for a in ast.walk(init) if isinstance(a, ast.Assign) for t in a.targets if is_self_attr(t) and (isinstance(a.value, (ast.Set, ast.List, ast.Dict)) or (isinstance(a.value, ast.Call) and call_name(a.value) in ("set", "list", "dict", "defaultdict", "OrderedDict")))}
+        for attr in sorted(colls):
+            n += 1
+            bad = []
+            for mn, mf in ci.methods.items():
+                if not mn.startswith("visit_"):
+                    continue
+                for a in ast.walk(mf):
+                    if isinstance(a, ast.Assign) and any(is_self_attr(t) and t.attr == attr for t in a.targets):
+                        keeps = any(is_self_attr(x) and x.attr == attr for x in ast.walk(a.value))
+                        if not keeps:
+                            bad.append((mn, a.lineno, unparse(a)[:70]))
+            ok = not bad
+            ctx.ob(f"{cn}.{attr}", ok, "" if ok else f"`{cn}.{bad[0][0]}` rebinds `self.{attr}` (`{bad[0][2]}`, line {bad[0][1]}): what earlier statements contributed is forgotten, only the last one counts - e.g. arrays DIMmed by an earlier DIM statement are declared a second time", file=VISITORS_REL, line=bad[0][1] if bad else init.lineno)
+    ctx.need(n >= 3, "visitors", f"only {n} collecting passes found")
+
+
 @rule("P2", "OPTION-INFLUENCE: each option of convert() reaches exactly the sinks documented for it", ["C11", "C13"], floor=25, default_props=["C11"])
 def p2(ctx: Ctx):
     P = pipeline(ctx)
@@ -583,27 +608,47 @@ def p3(ctx: Ctx):
     ctx.need(writes, "convert_file", "output write not found")
     w = writes[0]
     arg = w.args[0] if w.args else None
-    okw = False
+    okw: Optional[bool] = None
+    mconsts = dict(py.mod(COMPILER_REL).assigns)
     if isinstance(arg, ast.Name):
         defs = [n for n in walk_no_nested(cf) if isinstance(n, ast.Assign) and isinstance(n.targets[0], ast.Name) and n.targets[0].id == arg.id and n.lineno < w.lineno]
         if defs:
             last = max(defs, key=lambda n: n.lineno)
-            okw = _is_nl_to_cr(last.value)
+            okw = _is_nl_to_cr(last.value, mconsts)
     elif arg is not None:
-        okw = _is_nl_to_cr(arg)
-    ctx.ob("convert_file:\\n->\\r", okw, "" if okw else "the text written is not the result of .replace('\\n', '\\r')", file=COMPILER_REL, line=w.lineno)
+        okw = _is_nl_to_cr(arg, mconsts)
+    ctx.idiom("convert_file:\\n->\\r", okw is not None, bool(okw), "" if okw else "the text written is not the program text with every LF turned into CR", file=COMPILER_REL, line=w.lineno)
 
 
-def _is_nl_to_cr(e: ast.AST) -> bool:
-    return (
-        isinstance(e, ast.Call)
-        and isinstance(e.func, ast.Attribute)
-        and e.func.attr == "replace"
-        and len(e.args) == 2
-        and all(isinstance(a, ast.Constant) for a in e.args)
-        and e.args[0].value == "\n"
-        and e.args[1].value == "\r"
-    )
+def _is_nl_to_cr(e: ast.AST, consts: Optional[Dict[str, ast.AST]] = None) -> Optional[bool]:
+    """Does the expression turn every LF of its receiver into CR (and nothing else)?  None: not a form this reads."""
+    consts = consts or {}
+
+    def cv(x):
+        if isinstance(x, ast.Name) and x.id in consts:
+            x = consts[x.id]
+        return x
+
+    if not (isinstance(e, ast.Call) and isinstance(e.func, ast.Attribute)):
+        return None
+    if e.func.attr == "replace" and len(e.args) == 2:
+        a0, a1 = cv(e.args[0]), cv(e.args[1])
+        if isinstance(a0, ast.Constant) and isinstance(a1, ast.Constant):
+            return a0.value == "\n" and a1.value == "\r"
+        return None
+    if e.func.attr == "translate" and len(e.args) == 1:
+        t = cv(e.args[0])
+        if isinstance(t, ast.Call) and call_name(t) == "maketrans" and len(t.args) == 2 and all(isinstance(cv(x), ast.Constant) for x in t.args):
+            return cv(t.args[0]).value == "\n" and cv(t.args[1]).value == "\r"
+        if isinstance(t, ast.Dict) and all(isinstance(k_, ast.Constant) and isinstance(v_, ast.Constant) for k_, v_ in zip(t.keys, t.values)):
+            pairs = {(ord(k_.value) if isinstance(k_.value, str) else k_.value): (ord(v_.value) if isinstance(v_.value, str) and len(v_.value) == 1 else v_.value) for k_, v_ in zip(t.keys, t.values)}
+            return pairs == {10: 13}
+        return None
+    if e.func.attr == "join" and len(e.args) == 1 and isinstance(cv(e.func.value), ast.Constant):
+        inner = e.args[0]
+        if isinstance(inner, ast.Call) and isinstance(inner.func, ast.Attribute) and inner.func.attr == "split" and len(inner.args) == 1 and isinstance(cv(inner.args[0]), ast.Constant):
+            return cv(e.func.value).value == "\r" and cv(inner.args[0]).value == "\n"
+    return None
 
 
 def _kw_defaults(fn: ast.FunctionDef) -> Dict[str, str]:
@@ -651,7 +696,15 @@ def p4(ctx: Ctx):
     vs = sc.methods.get("visit_statement")
     ctx.need(vs is not None, "StatementCollectorVisitor.visit_statement", "not found")
     src = unparse(vs)
-    exact = re.search(r"type\(\w+\)\s+is\s+self\._statement_type|type\(\w+\)\s*==\s*self\._statement_type", src) is not None
+    # an exact-type comparison, in either polarity and operand order: `type(s) is T`, `type(s) is not T: return`, `T == type(s)`
+    exact = any(
+        isinstance(c, ast.Compare)
+        and len(c.ops) == 1
+        and isinstance(c.ops[0], (ast.Is, ast.IsNot, ast.Eq, ast.NotEq))
+        and any(isinstance(x, ast.Call) and call_name(x) == "type" and len(x.args) == 1 for x in (c.left, c.comparators[0]))
+        and any(not (isinstance(x, ast.Call) and call_name(x) == "type") for x in (c.left, c.comparators[0]))
+        for c in ast.walk(vs)
+    ) and not any(isinstance(c, ast.Call) and call_name(c) in ("isinstance", "issubclass") for c in ast.walk(vs))
     brk_sub = py.is_subclass("BasicOnBrkGoStatement", "BasicOnErrGoStatement") or py.is_subclass("BasicOnErrGoStatement", "BasicOnBrkGoStatement")
     okx = exact or not brk_sub
     ctx.ob("collector:exact-type", okx, "" if okx else "the handler collector no longer compares exact types although the two handler classes are related: one ON ERR plus one ON BRK would be refused / counted together", file=VISITORS_REL, line=vs.lineno)
